@@ -126,6 +126,7 @@ fn weave_fn(
     is_trait_impl: bool,
     vacuity: bool,
     indent: &str,
+    self_fx: &[(String, usize)],
 ) {
     let src = &file.text;
     let start = lo(sig.span());
@@ -160,6 +161,7 @@ fn weave_fn(
     let first_ob = ctx.obligations.len();
     let first_rw = ctx.rewrites.len();
     let mut w = new_weaver(src, &file.name, label.clone(), c, unit, ctx);
+    w.self_fx = self_fx.to_vec();
     w.weave_sig(sig, assoc, is_trait_impl);
     if vacuity {
         w.set_vacuity();
@@ -352,6 +354,45 @@ fn main() {
         }
     }
 
+    // per impl type: the fx-taking woven methods (for `self.method(..)` calls between entry points)
+    let mut all_owner_fx: BTreeMap<String, Vec<(String, usize)>> = BTreeMap::new();
+    for fname in order.iter() {
+        let file = &files[fname];
+        let macros = macro_bodies(file);
+        for it in file.ast.items.iter() {
+            if let syn::Item::Impl(im) = it {
+                let owner = match type_ident(&im.self_ty) {
+                    Some(o) => o,
+                    None => continue,
+                };
+                let mut add = |f: &syn::ImplItemFn, keys: Vec<String>| {
+                    if let Some(c) = find_contract(&unit, fname, &keys) {
+                        if c.fx && c.emit_as.is_none() {
+                            let ar = f.sig.inputs.iter().filter(|a| matches!(a, syn::FnArg::Typed(_))).count();
+                            all_owner_fx.entry(owner.clone()).or_default().push((f.sig.ident.to_string(), ar));
+                        }
+                    }
+                };
+                for ii in im.items.iter() {
+                    match ii {
+                        syn::ImplItem::Fn(f) => add(f, vec![format!("{}::{}", owner, f.sig.ident)]),
+                        syn::ImplItem::Macro(m) => {
+                            if let Some(mname) = m.mac.path.get_ident().map(|i| i.to_string()) {
+                                if let Some(items) = macros.get(&mname) {
+                                    for mi in items.iter() {
+                                        if let syn::ImplItem::Fn(f) = mi {
+                                            add(f, vec![format!("@{}::{}", mname, f.sig.ident), format!("{}::{}", owner, f.sig.ident)]);
+                                        }
+                                    }
+                                }
+                            }
+                        }
+                        _ => {}
+                    }
+                }
+            }
+        }
+    }
     let mut used: BTreeSet<usize> = BTreeSet::new();
     let mut uncontracted: Vec<serde_json::Value> = vec![];
     for fname in order.iter() {
@@ -369,7 +410,7 @@ fn main() {
                         if args.only.as_ref().map(|o| !keys[0].contains(o.as_str())).unwrap_or(false) {
                             continue;
                         }
-                        weave_fn(file, &unit, &mut ctx, &mut out, keys[0].clone(), c, &f.attrs, &f.sig, &f.block, &BTreeMap::new(), false, args.vacuity, "");
+                        weave_fn(file, &unit, &mut ctx, &mut out, keys[0].clone(), c, &f.attrs, &f.sig, &f.block, &BTreeMap::new(), false, args.vacuity, "", &[]);
                     } else {
                         uncontracted.push(serde_json::json!({"func": keys[0], "file": fname, "src_line": line_of(&file.text, lo(f.sig.span()))}));
                     }
@@ -431,13 +472,14 @@ fn main() {
                     out.text.push_str(&cfg_attrs(&im.attrs, &file.text));
                     out.text.push_str(&format!("// from /repo/src/{} line {}{}\n", fname, line_of(&file.text, lo(im.impl_token.span())), if is_trait { format!(" (X2: `impl {} for` emitted as inherent impl)", trait_name) } else { String::new() }));
                     out.text.push_str(&format!("impl{} {}{} {{\n", gtxt, sty, wh));
+                    let self_fx: Vec<(String, usize)> = all_owner_fx.get(&owner).cloned().unwrap_or_default();
                     for (label, f, keys) in fns.iter() {
                         if let Some(c) = find_contract(&unit, fname, keys) {
                             used.insert(c.line);
                             if args.only.as_ref().map(|o| !label.contains(o.as_str())).unwrap_or(false) {
                                 continue;
                             }
-                            weave_fn(file, &unit, &mut ctx, &mut out, label.clone(), c, &f.attrs, &f.sig, &f.block, &assoc, is_trait, args.vacuity, "    ");
+                            weave_fn(file, &unit, &mut ctx, &mut out, label.clone(), c, &f.attrs, &f.sig, &f.block, &assoc, is_trait, args.vacuity, "    ", &self_fx);
                         } else {
                             uncontracted.push(serde_json::json!({"func": label, "file": fname, "src_line": line_of(&file.text, lo(f.sig.span()))}));
                         }
